@@ -141,6 +141,8 @@ class TreeStorage(BaseStorage):
         self.num_feature_names = num_feature_names
         self._leaf_reservoir_length = leaf_reservoir_length
         self._seen_samples = 0
+        if seed is None:  # derive the tree seeds from the global generator to stay reproducible
+            seed = random.randrange(2 ** 32)
 
         self._storage_x = {cat_feature: HoeffdingAdaptiveTreeClassifier(
             max_depth=max_depth, leaf_prediction='nba', binary_split=True,
